@@ -131,6 +131,7 @@ pub fn iv_reload_groups(g: &mut Gen) {
 }
 
 pub fn c06(g: &mut Gen) {
+    big_vec_reload(g);
     // plain values: every Serialize type at boundary sizes; serialize (checked against the document) and load back with
     // trailing data in the stream
     let mut lines = Vec::new();
@@ -308,6 +309,39 @@ pub fn big_options(g: &mut Gen) {
     g.group(lines);
 }
 
+/// bitvectors whose serialized parts are MULTI-MEGABYTE vectors (more than 2^20 words of data; more than 4096 and more
+/// than 2^19 rank samples): written with all supports, loaded back (`hreload` keeps the loaded copy) and queried over
+/// the whole range by the closed-form reference for fill-and-flip vectors.  Thorough scale only.
+pub fn big_vec_reload(g: &mut Gen) {
+    if !g.thorough { return; }
+    for (len, fill) in [(64u64 * ((1u64 << 20) + 5) - 17, 1u64), (2_200_000, 0), (2_200_000, 1), (64u64 * ((1u64 << 20) + 5) - 17, 0)] {
+        let mut flips: Vec<u64> = vec![0, 1, 63, 64, 4095 * 64 + 7, 4096 * 64, 4096 * 64 + 1, 524_287, 524_288, 1_048_575, 1_048_576, 2_097_151, 2_097_152,
+                                       len / 2, len - 70, len - 2, len - 1];
+        if len > (1u64 << 26) { flips.extend([64 * (1u64 << 19), 64 * (1u64 << 19) + 1, 64 * (1u64 << 20) - 1, 64 * (1u64 << 20), 64 * (1u64 << 20) + 64, 512 * (1u64 << 17) + 3]); }
+        flips.retain(|x| *x < len); flips.sort(); flips.dedup();
+        let k = flips.len() as u64;
+        let fl: Vec<String> = flips.iter().map(|x| x.to_string()).collect();
+        let mut lines = vec![format!("bv H huge {} {} rsz {}", len, fill, fl.join(" ")), "bv H hreload".to_string()];
+        lines.push("bv H len".to_string()); lines.push("bv H ones".to_string()); lines.push("bv H zeros".to_string());
+        let mut xs: Vec<u64> = flips.clone();
+        for f in &flips { xs.push(f + 1); xs.push(f.saturating_sub(1)); }
+        for i in 0..40u64 { xs.push(i * (len / 40) + (i * 37) % 64); }
+        xs.push(len); xs.sort(); xs.dedup();
+        for x in xs {
+            if x < len { lines.push(format!("bv H get {}", x)); }
+            lines.push(format!("bv H rank {}", x)); lines.push(format!("bv H pred {}", x)); lines.push(format!("bv H succ {}", x));
+        }
+        let ones = if fill == 1 { len - k } else { k };
+        for (op, c) in [("select", ones), ("select0", len - ones)] {
+            let mut rs: Vec<u64> = vec![0, 1, k.saturating_sub(1), k, 4095, 4096, 4097, c / 3, c / 2, c.saturating_sub(4097), c.saturating_sub(2), c.saturating_sub(1), c];
+            for i in 0..20u64 { rs.push(i * (c / 20)); }
+            rs.sort(); rs.dedup();
+            for r in rs { lines.push(format!("bv H {} {}", op, r)); }
+        }
+        g.group(lines);
+    }
+}
+
 /// bitvectors of >= 83,521 bits whose last (or only) select superblock is LONG and partially filled — for set bits
 /// (very sparse) and for unset bits (very dense): written with every subset of supports, reloaded, compared, queried
 pub fn long_partial_superblocks(g: &mut Gen) {
@@ -329,7 +363,34 @@ pub fn long_partial_superblocks(g: &mut Gen) {
     }
 }
 
+/// iterators with LONG skips (`nth` of 512 and more, after items were taken from the back) over the same vector under every
+/// subset of supports: a support structure may speed a skip up, it must not change what the iterator yields afterwards
+pub fn long_skips_under_supports(g: &mut Gen) {
+    for (len, kind) in [(6000usize, 2usize), (3000, 6)] {
+        let bits = crate::gen_bv::make_bits(g, len, kind);
+        let ones = bits.iter().filter(|b| **b).count();
+        let zeros = len - ones;
+        for sub in ["-", "r", "s", "z", "sz", "rsz"] {
+            let mut lines = vec![format!("bv A from_raw {} {}", len, crate::gen_bv::words_of_bits(&bits))];
+            if sub != "-" { lines.push(format!("bv A enable {}", sub)); }
+            for (what, cnt) in [("one", ones), ("zero", zeros)] {
+                if cnt < 1300 { continue; }
+                lines.push(format!("bv A it {} : b b l N512 l n b l N600 l n l", what));
+                lines.push(format!("bv A it {} : N511 b N512 l b n l", what));
+                lines.push(format!("bv A it {} : b N{} l n b", what, cnt - 2));
+                lines.push(format!("bv A it {} : b N{} l n b", what, cnt - 1));
+            }
+            if ones >= 1300 && sub.contains('s') { lines.push("bv A it sel 5 : b b N513 l n b l".to_string()); }
+            if ones >= 1300 && sub.contains('s') && sub.contains('r') { lines.push("bv A it succ 70 : b N700 l n l".to_string()); }
+            if zeros >= 1300 && sub.contains('z') { lines.push("bv A it sel0 5 : b b N513 l n b l".to_string()); }
+            g.group(lines);
+        }
+    }
+}
+
 pub fn c19(g: &mut Gen) {
+    long_skips_under_supports(g);
+    big_vec_reload(g);
     big_options(g);
     long_partial_superblocks(g);
     // 8 subsets of supports at write time x orders of enable_* interleaved with serialize / load
@@ -585,6 +646,7 @@ pub fn c20(g: &mut Gen) {
 }
 
 pub fn c07(g: &mut Gen) {
+    big_vec_reload(g);
     // direction 1: the bytes written for every structure decode, by the rules of the document alone, into the same content
     // (`doc` lines are evaluated by the Lean document decoder on the implementation's bytes)
     let sizes: Vec<usize> = if g.thorough { vec![0, 1, 63, 64, 65, 513, 4097] } else { vec![0, 1, 64, 65, 700] };
